@@ -87,13 +87,6 @@ func typeSwitchCase(fd *ast.FuncDecl, suffix string) *ast.CaseClause {
 	return res
 }
 
-func leanBool(b bool) string {
-	if b {
-		return "true"
-	}
-	return "false"
-}
-
 // genC19Pb emits (1) the field table of the protobuf structs of the prepare /
 // sign message trees, (2) the channel-type case labels of
 // ParseRPCServerOrder, (3) which nil tests and reject calls the current
